@@ -61,4 +61,24 @@ CHECKS = {
                                         "VMess leaves chunk padding unauthenticated by design, so VMess is held to the prefix oracle only",
                                         "Trojan has no encryption of its own and is outside this property; datagram tampering is covered by the UDP checks"],
     },
+    "C13": {
+        "level": "fault_enumeration",
+        "parts": [{"gen": "C13", "quick": 160, "thorough": 3200}],
+        "rule": "one plan = one generated local handshake (class cycles over SOCKS5 CONNECT ipv4/domain/ipv6, HTTP CONNECT reg-name/ipv4/[ipv6], absolute-URI requests with/without port, "
+                "small and multi-KiB header blocks, and malformed variants: bad version, BIND/UDP-ASSOCIATE, bad address type, bad port, garbage). The handshake is delivered whole and then with every single "
+                "cut point of its bytes, seeded multi-cuts and byte-at-a-time, the client going quiet between pieces; each delivery is one evaluation (a fresh world with the real client and server). "
+                "Oracle: exactly one dial to exactly (host, port) (80 by default), protocol-conformant replies, the target receives exactly the bytes after the handshake (SOCKS5, CONNECT) or the untouched request (plain HTTP); "
+                "malformed => no dial and the connection is closed within 45 simulated seconds.",
+        "real": REAL_SYSTEM, "stub": STUB_SYSTEM, "assumptions": ASSUME_SYSTEM + ["the application is protocol compliant (waits for each reply); optimistic pipelining is not demanded", "plain tcp between client and server (the local handshake does not depend on the outer transport)"],
+    },
+    "C15": {
+        "level": "fault_enumeration",
+        "parts": [{"gen": "C15", "quick": 1600, "thorough": 40000, "quick_deadline_s": 420, "thorough_deadline_s": 3000}],
+        "rule": "one run = a batch of 1-16 (thorough -32) concurrent flows through the real client and server over a cycling (protocol, cipher, tcp/tls/ws/wss) cell; every flow ends in a drawn way: "
+                "application or target half-close, close after everything, abandon (close with data in flight), reset; target refused / unresolvable / black-holed; or the whole client<->server link is cut (RST) at a drawn byte offset "
+                "by the man-in-the-middle node; scripts with pauses place the ending before, during or after the transfer. Oracle: (1) data written by the side that closes gracefully reaches the other side, "
+                "(2) the other side observes EOF/reset within 10 simulated seconds (+ path latency) of the close (140 s for a black-holed dial), (3) after the batch the open simulated sockets and the live tasks "
+                "of client and server equal the idle baseline measured before it, and neither main() has returned. non-trivial = bytes relayed or a target fault exercised; distinct = (plan shape, poll order).",
+        "real": REAL_SYSTEM, "stub": STUB_SYSTEM + ["man-in-the-middle node for link cuts (harness)"], "assumptions": ASSUME_SYSTEM + ["descriptor counts are those of the simulated sockets (TLS sessions, buffers and other heap state are not counted)"],
+    },
 }
